@@ -132,6 +132,16 @@ class SymBytesIO:
     def getvalue(self):
         return SymBytes(list(self.b.e))
 
+    def tell(self):
+        return self.pos
+
+    def seek(self, off, whence=0):
+        if isinstance(off, SymInt):
+            off = sym.ENG.concretize(off.t)
+        base = 0 if whence == 0 else self.pos if whence == 1 else len(self.b)
+        self.pos = max(0, min(len(self.b), base + off))
+        return self.pos
+
     def __getattr__(self, name):
         if name.startswith("__"):
             raise AttributeError(name)
